@@ -59,9 +59,9 @@ def detect(sid, pids, tier="quick"):
     sh("git -C /repo worktree add -q %s HEAD" % wt)
     rc, o = sh("git apply %s/patch.diff" % d, cwd=wt)
     if rc != 0:     # /repo has moved on since the change was written (fix: commits): three-way, then fuzzy
-        rc, o = sh("git apply --3way %s/patch.diff && git reset -q" % d, cwd=wt)
+        rc, o = sh("git apply --3way %s/patch.diff && git reset -q && ! grep -rl '^<<<<<<< ' hl7apy" % d, cwd=wt)
     if rc != 0:
-        sh("git checkout -q -- . && git clean -fdq", cwd=wt)
+        sh("git reset -q --hard HEAD && git clean -fdq", cwd=wt)
         rc, o = sh("patch -p1 -s -F3 --no-backup-if-mismatch < %s/patch.diff" % d, cwd=wt)
     if rc != 0:
         print(sid, "patch does not apply:", o[-300:].replace("\n", " ")); sh("git -C /repo worktree remove --force %s" % wt); return
